@@ -153,6 +153,19 @@ def check_case(case):
         res.bad(f"C16/exporter/exception:{out.key}", {**info, "error": repr(out)})
         return res
     trip, text, obs, raw = out
+    if second and any(m[0] != "nop" for m in second):
+        kind2, _ = classify(dom, world, [m for m in second if m[0] != "nop"], exp)
+        if kind2 == "inapplicable":
+            # the permission is an argument of the call, not a state of the exporter: a strict call on an exporter
+            # that served a lenient call before must still refuse the inapplicable member
+            def strict_after_lenient():
+                ex = MultiAgentTrajectoryExporter(domain)
+                ex.parse_plan(problem, action_sequence=list(lines), allow_inapplicable_actions=True)
+                ex.parse_plan(problem, action_sequence=list(lines), allow_inapplicable_actions=False)
+            oks, err = lib_call(strict_after_lenient)
+            if oks:
+                res.bad("C16/exporter/strict-call-after-lenient-call-not-refused", info)
+                return res
     if len(trip) != len(lines):
         res.bad("C16/exporter/steps", {**info, "steps": len(trip)})
         return res
